@@ -236,6 +236,61 @@ func genC17(tier, out string, sum *Summary) {
 		w := v
 		c.same("unprojected-pipe", slc(fld("a"), &w, nil, nil, cur()), pipe(slc(fld("a"), &w, nil, nil, cur()), proj(PList, cur(), cur())), edoc)
 	}
+	// small-scope identities: every kind of projection over every small operand, with every kind of right-hand
+	// side (fields, indexes, multi-selects, slices, nested projections, built-in calls), on documents of every shape
+	{
+		cfg := ssCfg{funcs: true}
+		sdocs := make([]any, len(ssDocs))
+		for i, d := range ssDocs {
+			sdocs[i] = jsonDoc(d)
+		}
+		// conditions that reject null elements: then the unprojected filter result holds exactly the elements the
+		// right-hand side is applied to, whatever the right-hand side does with null
+		conds := []*R{cur(), fld("a"), cmp("==", call("type", av(cur())), raw("number")), cmp("==", call("type", av(cur())), raw("object")), cmp("==", call("type", av(cur())), raw("string"))}
+		var ops []*R
+		for _, x := range ssLeaves(cfg) {
+			ops = append(ops, x)
+			if postfixOK(x) {
+				ops = append(ops, sub(x, fld("a")), sub(x, fld("b")))
+			}
+		}
+		k := 0
+		for _, x := range ops {
+			for _, r := range ssRHS(cfg)[1:] {
+				var pairs [][2]*R
+				strict := !failing(r) // selectors map null to null; built-in calls do not (type(null) is "null", abs(null) fails)
+				if strict {
+					for _, pk := range []PKind{PList, PFlatten, PValues} {
+						pairs = append(pairs, [2]*R{proj(pk, x, r), pipe(proj(pk, x, cur()), proj(PList, cur(), r))})
+					}
+				}
+				for _, cd := range conds {
+					pairs = append(pairs, [2]*R{filt(x, cd, r), pipe(filt(x, cd, cur()), proj(PList, cur(), r))})
+				}
+				if strict {
+					pairs = append(pairs, [2]*R{slc(x, ip(0), nil, nil, r), pipe(slc(x, ip(0), nil, nil, cur()), proj(PList, cur(), r))})
+				}
+				pairs = append(pairs, [2]*R{proj(PList, x, r), proj(PList, call("map", ar(r), av(x)), cur())})
+				for _, pr := range pairs {
+					per := 2
+					if tier == "thorough" {
+						per = len(sdocs)
+					}
+					for q := 0; q < per; q++ {
+						k++
+						doc := sdocs[(k*3+q*5)%len(sdocs)]
+						if pr[0].PK == PSlice && typeOf(x, doc) == "string" {
+							continue // a slice of a string is a string, not a projection
+						}
+						if pr[1].K == KProj && pr[1].L != nil && pr[1].L.K == KCall && typeOf(x, doc) != "array" {
+							continue // map() demands an array
+						}
+						c.same("small-scope", pr[0], pr[1], doc)
+					}
+				}
+			}
+		}
+	}
 	c.sh.Flush()
 	sum.Cases = c.sh.total
 	sum.Shards = c.sh.files
